@@ -66,7 +66,13 @@ def tables(ctx):
     if T is None:
         from gen import acmd_tables
         from vlib import core
-        T = ctx.acmd_tables = acmd_tables.tables(core.REPO)
+        try:
+            T = acmd_tables.tables(core.REPO)
+        except GenError:
+            # the translator's refusal is already recorded as a broken tie; the harness and the
+            # oracle keep going with the protocol's literals so that a concrete input is found
+            T = acmd_tables.tables(core.REPO, strict=False)
+        ctx.acmd_tables = T
     return T
 
 
@@ -395,10 +401,262 @@ def correspondence(ctx):
                   show='show', shard=ctx.n(40, 120))
 
 
+# ---------------------------------------------------------------------------
+# property-level oracle on the implementation: the statement of C14 transcribed to Python
+# (exact rational comparisons, independent of the model and of the code's float tests)
+
+from fractions import Fraction
+
+
+def spec_split(T, body):
+    """the commands of a message body, or None when it is not a sequence of commands with known
+    ids and the lengths those ids prescribe"""
+    cmds = []
+    while body:
+        if len(body) < 2:
+            return None
+        cid = body[0] | body[1] << 8
+        if cid in (1, 2):
+            n = T['cmd_len']
+        elif cid == 4:
+            if len(body) < 18:
+                return None
+            n = T['pt_head'] + (body[16] | body[17] << 8) * T['pt_entry']
+        else:
+            return None
+        if len(body) < n:
+            return None
+        cmds.append(bytes(body[:n]))
+        body = body[n:]
+    return cmds
+
+
+def spec_verdict(T, prev, data):
+    """what C14 prescribes for `data` arriving at an idle parser whose previous message counter
+    is `prev`: ('executed', [(sub, cid, cmd)]), ('dropped',), ('pending',) or None (no claim:
+    the bytes could be framed in more than one way)"""
+    first = bytes([T['start_flag'][0]])
+    start = bytes(T['start_flag'])
+    end = bytes(T['end_flag'])
+
+    def clean(rest):
+        return first not in rest
+    if data[:4] != start:
+        k = 0
+        while k < min(4, len(data)) and data[k] == start[k]:
+            k += 1
+        if len(data) <= k:
+            return ('pending',)
+        return ('dropped',) if clean(data[k:]) else None
+    if len(data) < 8:
+        return ('pending',)
+    declared = struct.unpack('<I', data[4:8])[0]
+    if declared < 20:
+        return ('dropped',) if clean(data[8:]) else None
+    if len(data) < 12:
+        return ('pending',)
+    counter = struct.unpack('<I', data[8:12])[0]
+    if prev is not None and counter == prev:
+        return ('dropped',) if clean(data[12:]) else None
+    if declared > len(data):
+        return ('pending',)
+    frame, rest = data[:declared], data[declared:]
+    if not clean(rest):
+        return None
+    if frame[-4:] != end:
+        return ('dropped',)
+    count = struct.unpack('<i', frame[12:16])[0]
+    cmds = spec_split(T, frame[16:-4])
+    if cmds is None or len(cmds) != count:
+        return ('dropped',)
+    subs = [c[2] | c[3] << 8 for c in cmds]
+    if len(set(subs)) != len(subs):
+        return ('dropped',)
+    out = []
+    for c, sub in zip(cmds, subs):
+        cid = c[0] | c[1] << 8
+        if (sub, cid) not in T['handlers']:
+            return ('dropped',)
+        out.append((sub, cid, c))
+    return ('executed', out)
+
+
+def spec_answer(T, name, snap, mode, b1, b2):
+    """(received mode, answer) C14 prescribes for a mode command on axis `name` whose state
+    before the command is the snapshot `snap`"""
+    c = T[name]
+    if mode not in T['mode_commands'] or T['mode_commands'][mode] == '_ignore':
+        return 0, 0
+    x1, x2 = L.float_of(b1), L.float_of(b2)
+    st, stow_ok, p_ist = snap[0], snap[9], snap[3]
+    permitted = True
+    if mode == 2:
+        permitted = st == 0
+    elif mode in (3, 4, 5, 7, 8, 52):
+        permitted = st == 3
+    elif mode == 15:
+        permitted = st in (0, 1)
+    elif mode == 50:
+        permitted = bool(stow_ok)
+
+    def fin(x):
+        return math.isfinite(x)
+
+    def rate_ok(x, lim):
+        return fin(x) and abs(Fraction(x)) <= Fraction(lim)
+
+    def pos_ok(x):
+        return fin(x) and c['min_pos'] <= Fraction(x) <= c['max_pos']
+    ok = True
+    if mode == 3:
+        ok = pos_ok(x1) and rate_ok(x2, c['max_velocity'])
+    elif mode == 4:
+        ok = fin(x1) and pos_ok(p_ist / 1000000 + x1) and rate_ok(x2, c['max_velocity'])
+    elif mode == 5:
+        ok = rate_ok(x1, 1) and rate_ok(x2, c['max_velocity'])
+    elif mode == 8:
+        ok = rate_ok(x2, c['max_velocity'])
+    elif mode == 52:
+        # a valid stow index and |rate| within half the maximum rate
+        ok = fin(x1) and 0 <= Fraction(x1) < max(len(c['stow_pos']), 0) and \
+            rate_ok(x2, T['stow_rate_factor'] * c['max_velocity'])
+    return mode, (5 if not ok else 9 if permitted else 4)
+
+
+def examine(A, T, ops, report):
+    """run a history on a fresh System and check every statement of C14 at every message;
+    report(klass, what, **details) is called for each failure"""
+    s = L.new_system(A)
+    for k, op in enumerate(ops):
+        if op[0] == 'poke':
+            L.poke(s, op[1], op[2], op[3])
+            continue
+        if op[0] == 'tick':
+            L.tick(s)
+            continue
+        data = bytes(op[1])
+        idle_before = (s.msg == '')
+        prev = s.cmd_counter
+        before = dict(AZ=L.axis_snapshot(s.AZ), EL=L.axis_snapshot(s.EL), PS=L.ps_snapshot(s.PS))
+        outs = L.feed(s, data)
+        ev = L.take_events()
+        after = dict(AZ=L.axis_snapshot(s.AZ), EL=L.axis_snapshot(s.EL), PS=L.ps_snapshot(s.PS))
+        where = dict(op=k, msg=data.hex())
+        if L.O_EXCEPTION in outs or L.O_OTHER in outs:
+            report('parse_unexpected_exception', 'System.parse raised something other than ValueError '
+                   'or returned a non-bool', **where)
+        verdict = spec_verdict(T, prev, data) if idle_before else None
+        started = [(sub, cid, cmd) for sub, cid, cmd, t, exn in ev]
+        if verdict is not None:
+            if verdict[0] == 'executed':
+                if started != verdict[1]:
+                    report('wellformed_not_executed', 'a well-formed message was not executed as its commands, '
+                           'in order', started=[(a, b, c.hex()) for a, b, c in started], **where)
+                elif s.msg != '' or any(o != L.O_TRUE for o in outs):
+                    report('wellformed_not_clean', 'a well-formed message did not answer True to every byte '
+                           'or left the parser busy', outs=outs[-4:], **where)
+            else:
+                if started or after != before:
+                    report('malformed_not_dropped_whole', 'a message that is not well-formed started commands or '
+                           'changed subsystem state', started=[(a, b, c.hex()) for a, b, c in started], **where)
+                if verdict[0] == 'dropped' and s.msg != '':
+                    report('malformed_left_parser_busy', 'a rejected message left the parser waiting', **where)
+                if verdict[0] == 'dropped' and len(data) >= 8 and data[:4] == bytes(T['start_flag']) \
+                        and struct.unpack('<I', data[4:8])[0] < 20 and outs[7] != L.O_VALUEERROR:
+                    report('impossible_length_not_rejected', 'a declared length below 20 was not rejected at '
+                           'byte 8', **where)
+        elif not started and after != before:
+            report('state_changed_without_command', 'subsystem state changed although no command was started',
+                   **where)
+        # per command: answers, echo, refused commands change nothing.  Commands of one message go
+        # to distinct subsystems, so `before` is the state each of them saw.
+        for sub, cid, cmd, t, exn in ev:
+            name = {1: 'AZ', 2: 'EL'}.get(sub)
+            if name is None or len(cmd) != 26:
+                continue
+            b, a = before[name], after[name]
+            counter = struct.unpack('<I', cmd[4:8])[0]
+            w = dict(axis=name, cmd=cmd.hex(), state_before=b, **where)
+            if cid == 1:
+                mode = struct.unpack('<h', cmd[8:10])[0]
+                b1, b2 = struct.unpack('<QQ', cmd[10:26])
+                emode, eans = spec_answer(T, name, b, mode, b1, b2)
+                rx = tuple(a[15:18])
+                if rx[0] != counter:
+                    report('mode_counter_not_echoed', 'received_mode_command_counter does not echo the command '
+                           'counter (thread outcome %s %s)' % (t, exn), got=rx, **w)
+                    continue
+                if rx[1:] != (emode, eans):
+                    klass = 'mode_answer_wrong'
+                    if mode == 52 and not T[name]['stow_pos'] and rx[2] in (9, 4) and eans == 5:
+                        klass = 'drive_to_stow_without_stow_positions_unvalidated'
+                    report(klass, 'answer to a mode command differs from the one C14 prescribes: got %r, '
+                           'expected %r' % (rx[1:], (emode, eans)), **w)
+                    continue
+                if eans == 9:
+                    if tuple(a[18:20]) != (counter, mode) or a[20] not in (1, 2):
+                        report('executed_counter_not_echoed', 'accepted command not reflected in the executed '
+                               'counter/mode/answer', got=a[18:21], **w)
+                    if t == L.T_DIED:
+                        report('accepted_command_thread_died', 'the thread of an accepted command died (%s)' % exn, **w)
+                else:
+                    if [a[i] for i in L.MOTION_IDX] != [b[i] for i in L.MOTION_IDX] or a[18:21] != b[18:21]:
+                        report('refused_command_altered_state', 'a command that was not accepted altered motion, '
+                               'brakes, stow pins, offsets or the executed-command fields', after=a, **w)
+                    if t != L.T_DONE:
+                        report('refused_command_thread', 'the thread of a refused command did not end normally', **w)
+                if a[21:24] != b[21:24]:
+                    report('mode_command_touched_parameter_fields', 'parameter command fields changed', **w)
+            elif cid == 2:
+                if a[21] != counter:
+                    report('parameter_counter_not_echoed', 'parameter_command_counter does not echo', got=a[21], **w)
+                others = [i for i in L.MOTION_IDX if i != 6]
+                if [a[i] for i in others] != [b[i] for i in others] or a[15:21] != b[15:21]:
+                    report('parameter_command_altered_motion', 'a parameter command altered more than the offset', **w)
+                if a[6] != b[6] and not (t == L.T_DONE and a[23] == 1 and b[0] == 3):
+                    report('offset_changed_without_acceptance', 'the offset changed although the parameter '
+                           'command was not executed', **w)
+
+
 def oracle(ctx):
-    pass
+    T = tables(ctx)
+    pool = double_pool(T, ctx.rng)
+    histories = [('corpus', mk()) for mk in CORPUS]
+    for _ in range(ctx.n(500, 8000)):
+        histories.append(('directed', directed_history(ctx, T, pool, [])))
+    for _ in range(ctx.n(500, 8000)):
+        ops, tags = random_history(ctx, T, pool, [])
+        histories.append(('random', ops))
+    for _ in range(ctx.n(100, 1500)):
+        histories.append(('param', param_history(ctx, T, pool, [])))
+    seen = set()
+    checked = 0
+    with L.patched() as A:
+        for kind, ops in histories:
+            def report(klass, what, **details):
+                if klass in seen and len(ctx.failures) > 40:
+                    return
+                seen.add(klass)
+                ctx.fail(klass, what, dict(history=ops_to_json(ops), **details))
+            examine(A, T, ops, report)
+            checked += sum(1 for o in ops if o[0] == 'feed')
+    ctx.oracle_stats = dict(histories=len(histories), messages=checked)
+    ctx.evaluations += checked
+
+
+def ops_to_json(ops):
+    return [[o[0], bytes(o[1]).hex()] if o[0] == 'feed' else list(o) for o in ops]
+
+
+def ops_from_json(js):
+    return [('feed', bytes.fromhex(o[1])) if o[0] == 'feed' else tuple(o) for o in js]
 
 
 def replay(ctx, obj):
-    oracle(ctx)
-    return any(f['klass'] == obj.get('klass') for f in ctx.failures)
+    """re-execute the recorded history; True when the recorded class still fails"""
+    T = tables(ctx)
+    hits = []
+    with L.patched() as A:
+        examine(A, T, ops_from_json(obj['witness']['history']),
+                lambda klass, what, **d: hits.append(klass))
+    return obj.get('klass') in hits
